@@ -444,7 +444,7 @@ class Ctx(object):
 
 
 def emit(ctx, c, extra):
-    line = {k: c[k] for k in ('cid', 'env', 'top', 'codec', 'modof', 'expect', 'why', 'vals', 'cs', 'paired', 'env2', 'vals2', 'cs2', 'depth') if k in c}
+    line = {k: c[k] for k in ('cid', 'env', 'top', 'codec', 'modof', 'vals', 'paired', 'env2', 'vals2', 'depth') if k in c}
     line.update(extra)
     ctx.out.write(json.dumps(line) + '\n')
     ctx.out.flush()
@@ -514,8 +514,8 @@ def process_accept(ctx, cases):
     if herr is None:
         try:
             with open(os.path.join(cdir, 'table.c'), 'w') as f:
-                f.write(cdriver.table_source('gen.h', hdr, tags))
-            rc_clang, cerrs, _ = cdriver.build_module(cdir, ['table.c', 'gen.c'], 'mod.so')
+                f.write(cdriver.table_source('gen.c', hdr, tags))      # one translation unit: the generated source + the tables
+            rc_clang, cerrs, _ = cdriver.build_module(cdir, ['table.c'], 'mod.so')
         except cdriver.HeaderError as e:
             herr = str(e)
         cc['clang'] = {'rc': rc_clang, 'errs': [re.sub(r'C\d+x|c\d+x_', '', e)[-160:] for e in cerrs[:3]]}
